@@ -36,6 +36,18 @@ CLAIMED = {
             "data/standards.tsv (287 unit/constant rows + 32 prefixes, written from SI Brochure / NIST SP 811 / HB 44 / IAU / CODATA 2022, with sources) is compiled to Coq; row_ok is proved sound for every registry (a passed row means exact factor, dimension, symbol, offset), and every row is proved to hold in the model registry regenerated from /repo on each run; K asks the real Fraction registry (exact) and float registry (4 ulp) for every row, all spellings in thorough. A changed constant breaks the theorem; the search names the failing rows with the pint call, expected and observed values.",
             TB + " Correctness of the curated table is the builder's (rows carry their source); 13 rows whose definition goes through a square root are checked in Coq for dimension/symbol only and numerically against pint. F75-F79 (quarter, Réaumur, parsec, missing defining constants, two symbols) were repaired by fix: commits.",
             "DESIGN.md §4 C20"),
+    "C09": ("Coq proof over a layout-tree model of the unit formatters (parameters regenerated from the formatter sources, T7) + token-level round trip through the proved tree builder + string-equality correspondence for every unit x spec + real round-trip oracles",
+            "layout_denotes: for every format parameterisation, sort function and canonical container the layout denotes exactly the unit (names or symbols, exponents, numerator/denominator); plain formats round-trip at token level through Eval.build for all units with integer exponents (partial: decimal exponents by K only); guarded/refuted theorems for siunitx prefix stripping and colliding composed symbols; format totality. K: model printer == pint's format() for all 417 canonical units x 14 specs and thousands of random compound units/quantities/specs; parse_units(format(u)) == u and Quantity(str(q)) == q in float/Decimal/Fraction registries; formatting never raises nor mutates.",
+            TB + " Magnitude text is Python's format (trusted); HTML/LaTeX/siunitx are decoded by independent decoders in the harness; babel localisation out of scope. F4, F18 repaired by fix: commits; F19, F50, F51 known findings.",
+            "DESIGN.md §4 C09"),
+    "C12": ("Coq proof over an executable state machine of context activation (invariant by induction over all op sequences, defect switches) + exhaustive breadth-first correspondence of op sequences against the real registry + stack/restore/atomicity oracles",
+            "active_is_stack (every op sequence, any switch setting), exit/block restores, failed_activation_atomic, shared-context immutability are theorems of the model with the relevant defect switch off and refuted by vm_compute witnesses for the switches that reproduce pint; the harness replays each witness on the real code to select the switch values, then compares every observable after every step of ALL op sequences up to length 3-5 (quick) / 4-7 (thorough) over a pool of 5 contexts plus random length-30 sequences and two registries sharing Context objects.",
+            TB + " Single-threaded. Root-unit/conversion memo contents are not in the model state (stale memos surface as answer disagreements). F6 and F110 repaired by fix: commits; F7 (context-blind base-unit cache) and F8 (shared Context rewritten in place) are known findings.",
+            "DESIGN.md §4 C12"),
+    "C19": ("Coq proof over exact first-order affine forms (variances in Qc) and a token-level mirror of the uncertainty tokenizer + correspondence at token, tree and value level + oracles on conversion/arithmetic/notations",
+            "constructor forms agree, accessors, negative error rejected, conversion x -> a*x+b scales variance by a^2 (rel invariant for b=0), first-order arithmetic incl. self-correlation, tokenizer conservative on trigger-free streams and correct on the whole notation family incl. the exponent look-ahead (unc_tokens, full), parse of (v +/- u) unit, join_unc. K: the real tokenizer on thousands of notation instances (types, texts, positions), exact affine conversion for all temperature pairs and sampled unit pairs in the Fraction registry, constructor and shared-variable expression streams within 1e-12 (uncertainties computes in floats: that part is testing).",
+            TB + " uncertainties' float propagation and number formatting are trusted. F15, F70, F71 repaired by fix: commits; F72, F73 (offset-unit errors / Measurement lacks offset rules) known findings.",
+            "DESIGN.md §4 C19"),
 }
 PENDING = "check not built yet in this round (planned, see DESIGN.md §4); not claimed until its model, theorems and correspondence exist"
 
